@@ -2,7 +2,7 @@
    Statements only. *)
 From Coq Require Import Lia.
 From DepsDev Require Import Lib.Base Lib.Order Lib.PadLex Semver.Version Semver.Compare Semver.Maven Semver.MavenParse
-  Semver.MavenDomain Semver.Maven_proofs.
+  Semver.MavenDomain Semver.Maven_proofs Semver.MavenParse_proofs.
 Local Open Scope Z_scope.
 
 (* On every Maven version whose element list is in D_mvn (dotted numeric prefix, optionally one
@@ -45,6 +45,17 @@ Theorem C01_maven_no_panic : forall xs ys, Forall okcat xs -> Forall okcat ys ->
   exists r, maven_compare xs ys = Ok r.
 Proof. exact maven_compare_no_panic. Qed.
 Print Assumptions C01_maven_no_panic.
+
+(* ... and every element the parser produces is of that kind, so for ALL accepted strings (inside
+   D_mvn or not) compare returns a value. *)
+Theorem C01_maven_parser_elements : forall s v, mvn_parse s = Some (Ok v) -> Forall okcat (mvn_elems v).
+Proof. exact mvn_parse_okcat. Qed.
+Print Assumptions C01_maven_parser_elements.
+
+Theorem C01_maven_compare_total : forall sa sb a b,
+  mvn_parse sa = Some (Ok a) -> mvn_parse sb = Some (Ok b) -> exists r, compare a b = Ok r.
+Proof. exact maven_compare_total. Qed.
+Print Assumptions C01_maven_compare_total.
 
 (* Why the domain is needed: over all accepted strings the order is not transitive
    (2..milestone < 2 < 2.m-foo < 2..milestone). *)
